@@ -97,7 +97,7 @@ func newC10Sys(cfg drv.Config, maxD int) (*c10Sys, error) {
 	}
 	for _, bn := range c10BucketNames {
 		for _, k := range c10Keys(cfg.Kind) {
-			if bn != "aaa" && bn != "bbb" && k != "x" && k != "../aaa/x" && k != "bucket/aaa" && k != "w/y" {
+			if bn != "aaa" && bn != "bbb" && k != "x" && k != "../aaa/x" && k != "bucket/aaa" && k != "w/y" && k != "aaa/x" && k != "bbb/x" {
 				continue // internal bucket names: a few keys are enough
 			}
 			if bn == "bbb" && k != "../aaa/x" && k != "x" {
